@@ -16,6 +16,7 @@ ROOT = D.ROOT
 TRUSTED_BASE = [
     'z3 5.1.0 (z3-new), z3 4.8.12, cvc5 1.0.3: an `unsat` answer from one of them discharges an obligation; regauto (pyvc/regauto.py): own automata decision procedure for regular constraints over one string variable (regex inclusion goals on which the SMT solvers time out), cross-checked against the SMT solvers in the thorough tier',
     'pyvc (this AST->SMT-LIB generator), guarded by canaries, concolic CPython cross-check on every path and the broken-body self-test (pipeline_selftest)',
+    'loop rule of pyvc/loops.py where a contract declares a loop invariant: invariant on entry, havoc of the declared modifies set (sequence contents declared unchanged are checked after the body), one arbitrary iteration re-establishes the invariant and decreases a bounded variant, exit continues from the havocked state; sequences of symbolic length are SMT arrays of element ids over a finite universe of token kinds (the stated type invariant)',
     'CPython semantics assumed by the encoding: floor // and %, short-circuit and/or returning operands, lexicographic tuple comparison, left-to-right evaluation, str comparison by code point, canonical str(int) and int(str(n)) == n, identity of XlError singletons, functools.lru_cache transparent on pure functions',
 ]
 
